@@ -32,6 +32,8 @@ case_strategy = st.fixed_dictionaries({
     # plaintext) or highly compressible; value = distance from the limit
     "near_limit": st.sampled_from([None] * 9 + [0, 1, 39, 80, 200]),
     "near_limit_class": st.sampled_from(["random", "random", "zeros", "text"]),
+    # the application registers a header parameter of its own (registry with header_registry=) and uses it in the protected header
+    "custom_header": st.sampled_from([None, None, None, "x-app"]),
 })
 
 
@@ -119,6 +121,9 @@ def _check_headers(obj, plan, f, tag):
 
 def run_case(case) -> dict:
     plan = case["plan"]
+    if case.get("custom_header") and not case.get("kind"):
+        plan = dict(plan, custom_header=case["custom_header"], protected={**plan["protected"], case["custom_header"]: "caller value"})
+        case = dict(case, plan=plan)
     if case.get("near_limit") is not None and plan["zip"] == "DEF" and not case.get("kind"):
         import hashlib
         n = 256000 - case["near_limit"]
@@ -197,10 +202,10 @@ def run_case(case) -> dict:
             other = jp.jose_encrypt(dict(plan, plaintext_hex=b"the other message".hex()), "attached", case["form"])
 
             def resolve(obj_):
-                if jwe.decrypt_compact(other, keys[0], algorithms=jp.ALL_NAMES, sender_key=spub).plaintext != b"the other message":
+                if jwe.decrypt_compact(other, keys[0], sender_key=spub, **jp.allow_kw(plan)).plaintext != b"the other message":
                     raise AssertionError("nested decrypt wrong")
                 return keys[0]
-            o4 = jwe.decrypt_compact(tok, resolve, algorithms=jp.ALL_NAMES, sender_key=spub)
+            o4 = jwe.decrypt_compact(tok, resolve, sender_key=spub, **jp.allow_kw(plan))
             if o4.plaintext != pt:
                 f["C04:nested-resolver:plaintext-differs"] = f"decrypt_compact with a key resolver that opens another token returns {o4.plaintext[:40]!r}"
         except Exception as e:
@@ -221,7 +226,7 @@ def run_case(case) -> dict:
                     for m in ("epk", "iv", "tag", "p2s", "p2c"):
                         r.header.pop(m, None)
             spriv = jkey(gk.key_from_record(plan["sender"]), "dict", True) if plan["sender"] else None
-            tok2 = jwe.encrypt_json(obj, None, algorithms=jp.ALL_NAMES, sender_key=spriv)
+            tok2 = jwe.encrypt_json(obj, None, sender_key=spriv, **jp.allow_kw(plan))
             o3 = jp.jose_decrypt(copy.deepcopy(tok2), plan, "all" if len(plan["recipients"]) == 1 or not plan.get("headerless") else "one", case["form"])
             if o3.plaintext != pt:
                 f["C04:reseal:plaintext-differs"] = "decrypt -> amend -> encrypt -> decrypt returns other data"
